@@ -154,6 +154,7 @@ pub struct World {
     next_tx: usize,
     last_state: Value,
     recent: Vec<String>,
+    pending: Vec<String>,
 }
 
 fn secret(owner: &str) -> SecretKey {
@@ -256,6 +257,7 @@ impl World {
             next_tx: 100,
             last_state: Value::Null,
             recent: vec![],
+            pending: vec![],
         };
         for o in ["o1", "o2", "o3", "o4", "oT"] {
             w.owner_names.insert(address(o), o.to_string());
@@ -1038,7 +1040,21 @@ impl World {
                     b.push(pick);
                 }
             }
+            // ids preserved by regenesis are offered again now and then
+            let p0 = arr(&self.cfg, "processed0");
+            if !p0.is_empty() && rng.chance(1, 4) {
+                b.push(rng.pick(&p0).as_str().unwrap_or("").to_string());
+            }
             batches.push(b);
+        }
+        if !self.pending.is_empty() {
+            let mut b = std::mem::take(&mut self.pending);
+            if let Some(first) = batches.first().cloned() {
+                b.extend(first);
+                batches[0] = b;
+            } else {
+                batches.push(b);
+            }
         }
         let all = ["mintAmount", "mintGasPrice", "mintIndex", "noMint", "mintNotLast", "mintRecipient", "dupTx", "dupInBlock", "dropTx"];
         let mut tampers = vec![];
@@ -1051,6 +1067,9 @@ impl World {
     /// New descriptors over the coins / messages that are unspent right now.
     pub fn add_late_txs(&mut self, rng: &mut Rng, t: &mut Trace) {
         let st = self.last_state.clone();
+        if rng.chance(1, 4) {
+            self.add_gas_stress(rng, t);
+        }
         let n = 1 + rng.below(4);
         self.recent.clear();
         for _ in 0..n {
@@ -1059,6 +1078,29 @@ impl World {
             let d = gen_desc(rng, &id, &arr(&st, "coins"), &arr(&st, "msgs"), &self.deployed(&st), self.height);
             self.register_tx(&d);
             self.recent.push(id.clone());
+            let mut txs = arr(&self.cfg, "txs");
+            txs.push(d.clone());
+            self.cfg["txs"] = Value::Array(txs);
+            t.event("AddTx", json!({"tx": d}));
+        }
+    }
+    /// Gas stress: a script that burns (almost) the whole block gas limit followed by ordinary ones.
+    fn add_gas_stress(&mut self, rng: &mut Rng, t: &mut Trace) {
+        let st = self.last_state.clone();
+        let coins: Vec<Value> = arr(&st, "coins").into_iter().filter(|c| s(c, "as") == "A0" && u(c, "am") >= 3 * MF).collect();
+        if coins.len() < 3 {
+            return;
+        }
+        let first = rng.below(coins.len() as u64) as usize;
+        for k in 0..3 {
+            let id = format!("t{}", self.next_tx);
+            self.next_tx += 1;
+            let c = &coins[(first + k) % coins.len()];
+            let d = json!({"id": id, "kind": "script", "ins": [coin_in(c)], "outs": [out("change", "o1", 0, 0)], "ops": [],
+                           "end": if k == 0 { "burn" } else { "ret" }, "exp": -1, "c": "", "bad": "none", "mf": 1,
+                           "gl": if k == 0 { "big" } else { "std" }});
+            self.register_tx(&d);
+            self.pending.push(id);
             let mut txs = arr(&self.cfg, "txs");
             txs.push(d.clone());
             self.cfg["txs"] = Value::Array(txs);
@@ -1390,7 +1432,7 @@ pub fn gen_desc(rng: &mut Rng, id: &str, coins: &[Value], msgs: &[Value], contra
     d
 }
 
-pub fn random_cfg(rng: &mut Rng) -> Value {
+pub fn random_cfg(rng: &mut Rng, small_size: bool) -> Value {
     let owners = ["o1", "o2", "o3"];
     let mut coins = vec![];
     for i in 1..=(5 + rng.below(3)) {
@@ -1453,17 +1495,19 @@ pub fn random_cfg(rng: &mut Rng) -> Value {
         }
         relayer.push(Value::Array(evs));
     }
+    // now and then a block size limit that a source ignoring its `size` argument can exceed
+    let size_limit = if small_size { 1_500 } else { 0 };
     let mut processed0 = vec![];
     if rng.chance(1, 2) {
         processed0.push(json!(format!("t{}", 1 + rng.below(ntx))));
     }
     json!({"coins": coins, "msgs": msgs, "contracts": contracts, "relayer": relayer, "txs": txs, "processed0": processed0,
-           "gasLimit": 0, "sizeLimit": 0, "maxTx": 0, "roots": [], "da0": da0})
+           "gasLimit": 0, "sizeLimit": size_limit, "maxTx": 0, "roots": [], "da0": da0})
 }
 
 pub fn probe() {
     let mut rng = Rng::new(env_seed());
-    let cfg = random_cfg(&mut rng);
+    let cfg = random_cfg(&mut rng, false);
     let mut w = World::new(cfg);
     eprintln!("gasLimit {} sizeLimit {}", u(&w.cfg, "gasLimit"), u(&w.cfg, "sizeLimit"));
     for (n, (d, t)) in &w.txs {
